@@ -364,6 +364,32 @@ theorem C09_std_amount1_mirror_tick_bound (lo up : Int) (l : Int) (dec : Bool) (
       rw [abs_div, abs_div, abs_of_pos pa, abs_of_pos pb]
       exact add_le_add (div_le_div_of_nonneg_right r1 (le_of_lt pa)) (div_le_div_of_nonneg_right r2 (le_of_lt pb))
 
+/-! ### a price exactly on a range bound: the regime is not mirrored -/
+
+end Demeter
+namespace Demeter.Uni
+/-- the pool price is the price of tick `t` (so it sits exactly on a bound of any range that starts or ends at `t`): does
+    the pool see it on/below that bound (`s ≤ sqrtAt t`: the "only token0" regime of `get_amounts` / `get_liquidity`) while
+    the mirror sees it strictly inside the mirrored range (`s' < sqrtAt (−t)`)? -/
+def onBoundRegimesDiffer (pool : Pool) (t : Int) : Bool :=
+  match tickToPriceStd NumCtx.exact sqx pool t with
+  | .ok p =>
+    match priceToSqrtStd NumCtx.exact pool p, priceToSqrtStd NumCtx.exact (mPool pool) p with
+    | .ok s, .ok s' => decide (s ≤ sqrtAt t) && decide (s' < sqrtAt (-t))
+    | _, _ => false
+  | _ => false
+end Demeter.Uni
+namespace Demeter
+open Demeter.Uni
+
+/-- **On a range bound the concrete kernel's regime (below / inside / above) is not mirror-symmetric**: at the price of tick
+    −1990 the token0 = quote pool computes exactly `sqrtAt (−1990)` (on the bound: one-sided regime), its mirror computes
+    `sqrtAt 1990 − 2` (strictly inside).  With one offered amount zero `get_liquidity` is discontinuous there (one side asks
+    for the whole value in the other token, the other mints liquidity 0).  This is why the harness counts and does not
+    compare states whose price is within 1e-9 of a range bound (ASSUMPTIONS; the same policy for add by price / by tick /
+    by value / remove / views); the fee accrual on a bound is discrete in the ticks and is treated in `Proofs/C09/Fee.lean`. -/
+theorem C09_std_regime_on_bound_not_mirrored : onBoundRegimesDiffer toyPool (-1990) = true := by decide +kernel
+
 /-! ### the exact law has no instance for the code's kernel -/
 
 /-- **No sqrt-price map makes the code's kernel satisfy the exact mirror law** (the reason the statements above carry their
